@@ -4,7 +4,7 @@ use crate::choice::{self, Choices};
 use crate::exec;
 use crate::obs;
 use serde_json::{json, Value};
-use std::collections::{BTreeMap, HashSet};
+use std::collections::{BTreeMap, HashMap, HashSet};
 use std::sync::atomic::{AtomicBool, AtomicU64, Ordering};
 use std::sync::Mutex;
 use std::time::Instant;
@@ -130,6 +130,9 @@ pub struct Options {
     pub workers: usize,
     pub max_wall_s: f64,
     pub replay: Option<String>,
+    pub dump_hashes: Option<String>,
+    /// at most this many unknown violation classes are minimised and reported per run of a check
+    pub report_classes: usize,
     pub verif_dir: String,
     pub shrink_budget: usize,
     pub no_evidence: bool,
@@ -262,6 +265,8 @@ pub fn run_check(check: &dyn Check, opt: &Options) -> i32 {
         sigs: HashSet<u64>,
         counters: BTreeMap<&'static str, u64>,
         found: Vec<Found>,
+        class_counts: BTreeMap<String, u64>,
+        dump: Vec<(u64, u64, u64, usize, String)>,
         harness: Vec<(u64, String)>,
         events: u64,
         nontrivial: u64,
@@ -270,7 +275,7 @@ pub fn run_check(check: &dyn Check, opt: &Options) -> i32 {
         rechecked: u64,
         choices_total: u64,
     }
-    let agg = Mutex::new(Agg { sigs: HashSet::new(), counters: BTreeMap::new(), found: vec![], harness: vec![], events: 0, nontrivial: 0, samples: vec![], recheck_mismatch: vec![], rechecked: 0, choices_total: 0 });
+    let agg = Mutex::new(Agg { sigs: HashSet::new(), counters: BTreeMap::new(), found: vec![], class_counts: BTreeMap::new(), dump: vec![], harness: vec![], events: 0, nontrivial: 0, samples: vec![], recheck_mismatch: vec![], rechecked: 0, choices_total: 0 });
     let sample_every = (runs / 5).max(1);
     std::thread::scope(|sc| {
         for _ in 0..opt.workers {
@@ -278,6 +283,8 @@ pub fn run_check(check: &dyn Check, opt: &Options) -> i32 {
                 let mut sigs: HashSet<u64> = HashSet::new();
                 let mut counters: BTreeMap<&'static str, u64> = BTreeMap::new();
                 let mut found: Vec<Found> = vec![];
+                let mut class_n: HashMap<String, u64> = HashMap::new();
+                let mut dump: Vec<(u64, u64, u64, usize, String)> = vec![];
                 let mut harness = vec![];
                 let mut events = 0u64;
                 let mut nontrivial = 0u64;
@@ -314,9 +321,18 @@ pub fn run_check(check: &dyn Check, opt: &Options) -> i32 {
                     if let Some(h) = e.out.harness_error {
                         harness.push((run, h));
                     } else if let Some(v) = e.out.violation {
-                        if found.len() < 64 {
+                        // keep the first occurrence of every class this worker meets (workers take run
+                        // indices in increasing order, so the overall first occurrence is always kept)
+                        let n = class_n.entry(v.class()).or_insert(0);
+                        *n += 1;
+                        if opt.dump_hashes.is_some() {
+                            dump.push((run, e.trace_hash, e.sig_hash, e.choices.len(), v.class()));
+                        }
+                        if *n == 1 && found.len() < 4096 {
                             found.push(Found { run, v, choices: e.choices.clone() });
                         }
+                    } else if opt.dump_hashes.is_some() {
+                        dump.push((run, e.trace_hash, e.sig_hash, e.choices.len(), String::new()));
                     }
                     // determinism self-check on a sample of runs: replay the recorded vector
                     if run % 97 == 0 {
@@ -338,6 +354,10 @@ pub fn run_check(check: &dyn Check, opt: &Options) -> i32 {
                     *a.counters.entry(k).or_insert(0) += v;
                 }
                 a.found.extend(found);
+                for (k, v) in class_n {
+                    *a.class_counts.entry(k).or_insert(0) += v;
+                }
+                a.dump.extend(dump);
                 a.harness.extend(harness);
                 a.events += events;
                 a.nontrivial += nontrivial;
@@ -364,10 +384,18 @@ pub fn run_check(check: &dyn Check, opt: &Options) -> i32 {
     // group violations by class, first occurrence (lowest run index) per class
     a.found.sort_by_key(|f| f.run);
     let mut classes: BTreeMap<String, &Found> = BTreeMap::new();
-    let mut class_counts: BTreeMap<String, u64> = BTreeMap::new();
+    let class_counts: BTreeMap<String, u64> = a.class_counts.clone();
     for f in &a.found {
-        *class_counts.entry(f.v.class()).or_insert(0) += 1;
         classes.entry(f.v.class()).or_insert(f);
+    }
+    if let Some(path) = &opt.dump_hashes {
+        // one line per run, in run order: the event-log fingerprint used for cross-process determinism diffs
+        a.dump.sort();
+        let mut out = String::with_capacity(a.dump.len() * 48);
+        for (run, th, sh, n, class) in &a.dump {
+            out.push_str(&format!("{run} {th:016x} {sh:016x} {n} {class}\n"));
+        }
+        std::fs::write(path, out).expect("write hash dump");
     }
     let known = load_known(&opt.verif_dir);
     let mut exit = 0;
@@ -391,13 +419,13 @@ pub fn run_check(check: &dyn Check, opt: &Options) -> i32 {
     for (line, (cnt, _)) in &known_lines {
         println!("KNOWN-FINDING: property={id} {line} ({cnt} runs)");
     }
-    if unknown.len() > 12 {
-        println!("note: {} violation classes found; the first 12 are minimised and reported, the others are listed only:", unknown.len());
-        for (c, _) in unknown.iter().skip(12) {
+    if unknown.len() > opt.report_classes {
+        println!("note: {} violation classes found; the first {} are minimised and reported, the others are listed only:", unknown.len(), opt.report_classes);
+        for (c, _) in unknown.iter().skip(opt.report_classes) {
             println!("  unreported class: {c} ({} runs)", class_counts[*c]);
         }
     }
-    for (class, f) in unknown.iter().take(12) {
+    for (class, f) in unknown.iter().take(opt.report_classes) {
         let class: &String = class;
         let f: &Found = f;
         let ctx = RunCtx { tier: opt.tier, run: f.run, want_sample: false };
